@@ -14,6 +14,7 @@ import (
 	"verif/engine/vpipe"
 	"verif/engine/vs"
 	"verif/fw"
+	"verif/refws/frame"
 )
 
 type connCfg struct {
@@ -196,4 +197,71 @@ func errStr(err error) string {
 		return "nil"
 	}
 	return err.Error()
+}
+
+// ---- peer-side helpers (harness tasks)
+
+// connFrames parses what the connection has written so far.
+func connFrames(out []byte) []frame.Frame {
+	fs, _ := frame.ParseAll(out)
+	return fs
+}
+
+// hasOp reports whether out contains a complete frame with the opcode.
+func hasOp(out []byte, op byte) bool {
+	for _, f := range connFrames(out) {
+		if f.Opcode == op {
+			return true
+		}
+	}
+	return false
+}
+
+// firstClose returns the first Close frame the connection wrote.
+func firstClose(out []byte) (frame.Frame, bool) {
+	for _, f := range connFrames(out) {
+		if f.Opcode == frame.OpClose {
+			return f, true
+		}
+	}
+	return frame.Frame{}, false
+}
+
+// peerFrame encodes a frame the way the peer of a connection with cfg k sends it.
+func peerFrame(k connCfg, f frame.Frame) []byte {
+	f.Masked = !k.Client
+	if f.Masked && f.Key == [4]byte{} {
+		f.Key = [4]byte{0x37, 0xfa, 0x21, 0x3d}
+	}
+	return f.Encode(nil)
+}
+
+func peerClose(k connCfg, code int, reason string) []byte {
+	var pl []byte
+	if code != 1005 {
+		pl = frame.ClosePayload(code, reason)
+	}
+	return peerFrame(k, frame.Frame{Fin: true, Opcode: frame.OpClose, Payload: pl})
+}
+
+func peerData(k connCfg, op byte, fin bool, payload []byte) []byte {
+	return peerFrame(k, frame.Frame{Fin: fin, Opcode: op, Payload: payload})
+}
+
+// closeCodeOf extracts the status code of a Close frame payload (1005 if empty).
+func closeCodeOf(f frame.Frame) int {
+	if len(f.Payload) < 2 {
+		return 1005
+	}
+	return int(f.Payload[0])<<8 | int(f.Payload[1])
+}
+
+func stuckTasks(w *vs.World) []string {
+	var stuck []string
+	for _, t := range w.Tasks() {
+		if t.Required && !t.Done() {
+			stuck = append(stuck, t.Name)
+		}
+	}
+	return stuck
 }
